@@ -148,7 +148,8 @@ def spec_nary(chk, name, N, allow=("Integer", "Rational", "Real")):
     for k, v in enumerate(vals):
         inputs.update(v.num.inputs("v%d" % k))
         chk.region_ns.update(v.num.region_ns("v%d" % k))
-    small = z3.And(*[v.num.within(B15) for v in vals])
+    # integers and reals are compared directly or after conversion: no cross products, so the whole i32 range is claimed
+    small = z3.And(*[v.num.within(B15) for v in vals]) if "Rational" in allow else z3.BoolVal(True)
     no_nan = z3.And(*[z3.Not(z3.fpIsNaN(v.num.as_fp())) for v in vals]) if "Real" in allow else z3.BoolVal(True)
     conj = []
     for k in range(N - 1):
@@ -177,6 +178,97 @@ def spec_nary(chk, name, N, allow=("Integer", "Rational", "Real")):
         if not (isinstance(val, Adt) and val.variant == "Boolean"):
             raise Unsupported("predicate result is not a boolean: %r" % (val,))
         chk.oblige(ex, unit, "n-ary = conjunction of adjacent pairs", val.fields[0] == expected, inputs, replay_value, pre=z3.And(small, no_nan))
+    return ex
+
+
+STRUCT_GRID = [("I", 1), ("I", 2), ("I", 3), ("I", 16777217), ("F", 0x4b800000), ("I", 16777216), ("Q", 1, 2), ("F", 0x40200000), ("I", -1)]
+
+
+def nary_probe_battery(nat, name):
+    """every triple and quadruple over a small grid with non-transitive members (16777217 = 16777216. = 16777216 in
+    binary32): the builtin against the conjunction of adjacent pairs. Returns (deviates, detail)."""
+    import itertools
+    n = 0
+    for k in (3, 4):
+        grid = STRUCT_GRID if k == 3 else STRUCT_GRID[:6]
+        for nums in itertools.product(grid, repeat=k):
+            out = nat.cmd("builtin %s %d %s" % (name.encode().hex(), len(nums), " ".join(nl.tok_number(x) for x in nums)))
+            exp = all(py_cmp(a, b) in PRED[name] for a, b in zip(nums, nums[1:]))
+            t = out.split()
+            n += 1
+            if t[0] != "OK" or (t[2] == "1") != exp:
+                return True, "(%s %s): native %s, conjunction of adjacent pairs %s" % (name, " ".join(nl.tok_number(x) for x in nums), " ".join(t[:3]), exp)
+    return False, "%d probe tuples agree" % n
+
+
+def spec_nary_structure(chk, name, N=4):
+    """which pairs does the n-ary predicate compare? The binary comparison of Number (decided against the mathematical order
+    by the partial_cmp / eq units) is replaced by an arbitrary relation, one symbolic answer per ordered pair of argument
+    positions; the result must be the conjunction of the answers for the ADJACENT pairs - for every relation, transitive or
+    not (binary32 conversion makes = and < non-transitive across exactness), every argument count up to N."""
+    from .skel import stub
+    from ..models import Some, NONE
+    ex = chk.executor(True)
+    nat = chk.ws.runner("dev")
+    vals = [ValIn(ex, "v%d" % k) for k in range(N)]
+    ln = z3.Int("argc")
+    ex.ctx.add(ln >= 0, ln <= N)
+    for v in vals:
+        ex.ctx.add(v.is_number)
+    seq = nl.seq_of(ex, "args", [v.obj for v in vals], ln)
+    f = ex.resolve(BUILTIN[name])
+    unit = "builtin (%s x ...): pairs compared" % name
+    inputs = {"argc": ln}
+    answers = {}
+
+    def index_of(a):
+        o = ex.deref(a)
+        for k, v in enumerate(vals):
+            if o is v.num.obj:
+                return k
+        raise Unsupported("comparison operand is not an argument of the predicate: %r" % (o,))
+
+    def answer(i, j):
+        if (i, j) not in answers:
+            o = z3.Int("ord_%d_%d" % (i, j))          # 0 Less, 1 Equal, 2 Greater, 3 unordered
+            ex.ctx.add_global(z3.And(o >= 0, o <= 3))
+            answers[(i, j)] = o
+            inputs["ord_%d_%d" % (i, j)] = o
+        return answers[(i, j)]
+
+    @stub(ex, r"^<values::Number<R> as Partial(Ord|Eq)>::\w+$", "Number comparison = arbitrary relation over argument positions (one answer per ordered pair)")
+    def cmp_stub(ex_, callee, args, rt):
+        i, j = index_of(args[0]), index_of(args[1])
+        o = answer(i, j)
+        ex_.log("compare", i=i, j=j)
+        m = callee.rsplit("::", 1)[1]
+        if m == "partial_cmp":
+            for b in ex_.branches([o == 0, o == 1, o == 2, o == 3]):
+                yield Some(Adt("Ordering", ("Less", "Equal", "Greater")[b], [])) if b < 3 else NONE
+            return
+        yield {"eq": o == 1, "ne": o != 1, "lt": o == 0, "le": z3.Or(o == 0, o == 1), "gt": o == 2, "ge": z3.Or(o == 2, o == 1)}[m]
+
+    for i in range(N - 1):
+        answer(i, i + 1)
+    holds = lambda o: {"=": o == 1, "<": o == 0, ">": o == 2, "<=": z3.Or(o == 0, o == 1), ">=": z3.Or(o == 2, o == 1)}[name]
+    expected = z3.And(*[z3.Or(ln <= k + 1, holds(answers[(k, k + 1)])) for k in range(N - 1)])
+    battery = {}
+
+    def replay(vv):
+        if "r" not in battery:
+            battery["r"] = nary_probe_battery(nat, name)
+        return battery["r"]
+
+    chk.run_probes(unit, lambda nat_: replay(None), nat, 9 ** 3 + 6 ** 4)
+    for rv in ex.run(f, [seq]):
+        chk.path(unit)
+        if rv.variant == "Err":
+            chk.oblige(ex, unit, "numbers-are-compared-not-rejected", z3.BoolVal(False), inputs, replay)
+            continue
+        val = rv.fields[0]
+        if not (isinstance(val, Adt) and val.variant == "Boolean"):
+            raise Unsupported("predicate result is not a boolean: %r" % (val,))
+        chk.oblige(ex, unit, "result = conjunction of the answers for adjacent pairs", val.fields[0] == expected, dict(inputs), replay)
     return ex
 
 
@@ -401,6 +493,9 @@ def run(chk):
     EX = ("Integer", "Rational")
     for name in ("=", "<", ">", "<=", ">="):
         chk.step("nary-exact " + name, spec_nary, chk, name, N, EX)
+        chk.step("nary-structure " + name, spec_nary_structure, chk, name, 4)
+        if thorough:
+            chk.step("nary-3(int/real) " + name, spec_nary, chk, name, 3, ("Integer", "Real"))
         if thorough:
             chk.step("nary-mixed " + name, spec_nary, chk, name, 2)
         elif name == "<":
